@@ -118,6 +118,12 @@ def exhaustive(ctx, maxn, sample=None):
         ctx.count("exh:" + op)
         if a != b:
             ctx.disagree({"tree": t, "op": op}, a, b)
+        if op == "dedupe":
+            # "leaves exactly one node per URL": holds for every tree with unique ids, whatever the statuses
+            ua = urls_of(parse_dump(a))
+            if len(ua) != len(set(ua)):
+                ctx.violation("dedupe left two nodes with one URL: %s" % sorted(ua),
+                              {"domain": "item", "ops": [{"op": "tree", "t": t}, {"op": "dump"}, {"op": "dedupe"}]})
     ctx.count("exhaustive-trees", ntrees // 2)
     return ntrees // 2
 
@@ -335,6 +341,18 @@ def replay_ops(ctx, ops, known):
                 ctx.violation("CompleteAndCheck disagrees with the pending scan", {"domain": "item", "ops": ops})
 
 
+def concurrent(ctx, n):
+    """AddChild / RemoveChild from several goroutines on one parent: links must stay exact"""
+    lines = [json.dumps({"op": "concurrent", "children": ctx.rng.choice([4, 16, 64]), "workers": ctx.rng.choice([2, 4, 8]),
+                         "rounds": 300, "seed": ctx.rng.randrange(1 << 30)}) for _ in range(n)]
+    rc, out, err = core.run_impl("item", lines, timeout=900)
+    for l, a in zip(lines, out):
+        ctx.case("conc" + l, True)
+        ctx.count("concurrent:" + a.split(" ")[0])
+        if not a.startswith("ok"):
+            ctx.violation("concurrent AddChild/RemoveChild broke the children list: " + a, {"domain": "item", "concurrent": json.loads(l), "impl": a})
+
+
 def run(ctx):
     known = known_lookup(ctx)
     for ops in corpus(ctx):
@@ -346,6 +364,7 @@ def run(ctx):
     else:
         exhaustive(ctx, 4)
         sequences(ctx, 120, 5, 3)
+    concurrent(ctx, 40 if ctx.thorough() else 4)
     ctx.known = sorted(set(ctx.known))
     ctx.assumptions += ["node ids are unique (NewItem callers use fresh UUIDs / hashes)",
                         "childrenMu locking and data races are outside the model (single-goroutine use per seed)"]
@@ -353,6 +372,11 @@ def run(ctx):
 
 def replay(ctx, doc):
     rp = doc.get("replay", doc)
+    if "concurrent" in rp:
+        rc, out, err = core.run_impl("item", [json.dumps(dict(rp["concurrent"], op="concurrent"))], timeout=900)
+        if not out[0].startswith("ok"):
+            ctx.violation("concurrent AddChild/RemoveChild broke the children list: " + out[0], rp)
+        return
     ops = rp.get("ops") or rp.get("input", {}).get("ops")
     if ops:
         replay_ops(ctx, ops, known_lookup(ctx))
